@@ -957,15 +957,23 @@ func init() {
 	})
 	op("misc", "map/set->seq", func(w *world, a *args) string {
 		out := ""
+		// zero-value containers iterate in Go map order: their element lists are sorted
+		// by the harness so that the history stays a function of the seed
+		det := func(v *value, xs []int) []int {
+			if strings.Contains(v.snaps[1].before, "UnsafeGo") {
+				return sortedInts(xs)
+			}
+			return xs
+		}
 		if m, ok := pick(w, w.maps, a.i); ok {
 			d := m.v.name + ".Keys().ToSeq()"
-			out += w.newSeq(m.m.Keys().ToSeq(), nil, d).v.name + "=" + d + ","
+			out += w.newSeq(det(m.v, m.m.Keys().ToSeq()), nil, d).v.name + "=" + d + ","
 			d = m.v.name + ".Values().ToSeq()"
-			out += w.newSeq(m.m.Values().ToSeq(), nil, d).v.name + "=" + d + ","
+			out += w.newSeq(det(m.v, m.m.Values().ToSeq()), nil, d).v.name + "=" + d + ","
 		}
 		if s, ok := pick(w, w.sets, a.j); ok {
 			d := s.v.name + ".Iterator().ToSeq()"
-			out += w.newSeq(s.s.Iterator().ToSeq(), nil, d).v.name + "=" + d
+			out += w.newSeq(det(s.v, s.s.Iterator().ToSeq()), nil, d).v.name + "=" + d
 		}
 		return out
 	})
